@@ -1,6 +1,6 @@
 /-
 Line-protocol driver: one request per line on stdin, one response per line on stdout.
-Run with `lake env lean --run Driver.lean < ops.txt`. Imports models and generated tables only.
+Run with `lake env lean --run Drivers/C20.lean < ops.txt`. Imports models and generated tables only.
 -/
 import DarsiaModel.Basic
 import DarsiaModel.Indexing
@@ -35,17 +35,9 @@ def handleLayout : List String → Option String
       pure (showNats outShape ++ " | " ++ showNats srcs)
   | _ => none
 
-def dispatch (toks : List String) : String :=
-  let r := match toks with
-    | "axis" :: rest => handleAxis rest
-    | "layout" :: rest => handleLayout rest
-    | _ => none
-  r.getD "!bad-request"
+def dispatch : List String → Option String
+  | "axis" :: rest => handleAxis rest
+  | "layout" :: rest => handleLayout rest
+  | _ => none
 
-partial def loop (h : IO.FS.Stream) : IO Unit := do
-  let line ← h.getLine
-  if line.isEmpty then return ()
-  IO.println ("> " ++ dispatch (tokens line.trimAscii.toString))
-  loop h
-
-def main : IO Unit := do loop (← IO.getStdin)
+def main : IO Unit := runDriver dispatch
